@@ -3,10 +3,12 @@ package lib
 import (
 	"os"
 	"os/exec"
+	"path/filepath"
 	"runtime"
 	"strconv"
 	"strings"
 	"sync"
+	"time"
 )
 
 // Cuts calls f with every set of cut points (strictly increasing positions in 1..n-1) of size <= maxCuts
@@ -122,6 +124,16 @@ func ShardEnv() (int, int) {
 // RunShards re-executes the current binary n times with VERIF_SHARD=i/n and VERIF_SHARD_OUT=<file>, in
 // parallel, and returns the output files plus each worker's exit error and combined output.
 func RunShards(n int, dir string) (files []string, errs []error, outs []string) {
+	// one directory per run: concurrent runs of the same check (e.g. against a scratch tree) must not share files
+	if olds, err := filepath.Glob(dir + "-*"); err == nil {
+		for _, o := range olds {
+			if fi, err := os.Stat(o); err == nil && time.Since(fi.ModTime()) > 2*time.Hour {
+				os.RemoveAll(o)
+			}
+		}
+	}
+	dir = dir + "-" + strconv.Itoa(os.Getpid())
+	os.RemoveAll(dir)
 	os.MkdirAll(dir, 0o755)
 	files = make([]string, n)
 	errs = make([]error, n)
